@@ -1,3 +1,4 @@
+import NgVerif.Proofs.Source
 import NgVerif.Model.Slices
 import NgVerif.Proofs.Tiling
 import NgVerif.Proofs.Slices
@@ -82,5 +83,20 @@ theorem every_voxel_in_exactly_one_chunk (code : List Char) (p : List Nat) (hp :
     loop writes 8 chunks for a 3×2×3 volume with 2×1×2 chunks -/
 example : validCode "PIL".toList = true ∧ perm "PIL".toList = some [1, 2, 0] ∧ inv "PIL".toList = some [-1, -1, -1] ∧
     (stackChunks [1, 2, 0] [-1, -1, -1] [3, 2, 3] [2, 1, 2]).length = 8 := by decide
+
+/-- TRANSLATED SOURCE. The slice-group arithmetic of `slices_to_raw_chunks` as it stands in /repo's source
+    (translated on every run): number of groups, the in-order window of group `g`, and for a REVERSED slice axis
+    the start `n - 1 - first` and the (exclusive) stop `n - 1 - last` of the negative-step slice, whose `k`-th element
+    is the `k`-th file of the model's `groupFiles` — for every slice count, chunk depth, group and position -/
+theorem source_slice_windows_are_the_model (n cs g k : Nat) (hn : 1 ≤ n) (hk : k < min (cs * (g + 1)) n - cs * g) :
+    Generated.Src.sliceGroups (input_size_2 := n) (input_chunk_size_2 := cs) = ((Tiling.count n cs : Nat) : Int) ∧
+    Generated.Src.sliceFirstInOrder (input_chunk_size_2 := cs) (slice_chunk_idx := g) = ((cs * g : Nat) : Int) ∧
+    Generated.Src.sliceLastInOrder (input_chunk_size_2 := cs) (slice_chunk_idx := g) (input_size_2 := n)
+      = ((min (cs * (g + 1)) n : Nat) : Int) ∧
+    Generated.Src.sliceFirstReversed (input_size_2 := n) (first_slice_in_order := ((cs * g : Nat) : Int)) - (k : Int)
+      = (((groupFiles n cs g true).getD k 0 : Nat) : Int) ∧
+    Generated.Src.sliceLastReversed (input_size_2 := n) (last_slice_in_order := ((min (cs * (g + 1)) n : Nat) : Int))
+      < Generated.Src.sliceFirstReversed (input_size_2 := n) (first_slice_in_order := ((cs * g : Nat) : Int)) - (k : Int) :=
+  Source.slices_arith_eq_model n cs g k hn hk
 
 end NgVerif.Props.C15
